@@ -8,6 +8,8 @@ HERE=$(pwd)
 export VERIF_DIR=$HERE
 export GOFLAGS=-mod=mod GOPROXY=off GOSUMDB=off GOTOOLCHAIN=local
 export GOMAXPROCS=${GOMAXPROCS:-16}
+# the explorations allocate heavily (store branches): a laxer collector is ~30% faster; the memory limit keeps it bounded
+export GOGC=${GOGC:-300} GOMEMLIMIT=${GOMEMLIMIT:-24GiB}
 BIN=$HERE/.build/c4emc
 build() {
   mkdir -p $HERE/.build
